@@ -31,11 +31,14 @@ def clause_pool(verb, rng):
         return {"as": "as " + rng.choice(["foo", "big deal", "alpha beta gamma"]),
                 "at": "at " + rng.choice(["enter", "exit", "recur", "precur", "renter", "rexit"]),
                 "via": "via " + rng.choice([".x.y.", "boo."]),
-                "with": "with tag " + rng.choice(['"t1"', '"t2"']),
+                # quoted values that look like numbers, booleans or paths must stay strings wherever the clause stands;
+                # a lone value goes to the default field
+                "with": "with " + rng.choice(['tag "t1"', 'tag "t2"', '"2.50"', 'tag "10"', '"true"', 'tag ".a.b"', "tag 'x y' n 3",
+                                              '"0x1f"', "tag 7"]),
                 "per": "per inp " + rng.choice(['".io.p"', '".io.q"']),
                 "from": "from a in .src",
                 "for": "for b in .iosrc",
-                "cum": "cum extra " + rng.choice(["5", '"v"']),
+                "cum": "cum " + rng.choice(["extra 5", 'extra "v"', '"10"', 'extra "1e3"', "'no'", "extra none"]),
                 "qua": "qua b in .src"}
     if verb == "logger":
         return {"to": "to %s/lg" % S, "at": "at " + rng.choice(["0.5", "1"]), "be": "be " + rng.choice(["active", "inactive", "slave"]),
@@ -47,7 +50,8 @@ def clause_pool(verb, rng):
     if verb == "server":
         return {"at": "at " + rng.choice(["0.5", "1"]), "be": "be " + rng.choice(["active", "inactive", "slave"]),
                 "rx": "rx " + rng.choice(["127.0.0.1:55001", ":55002", "localhost"]), "tx": "tx " + rng.choice(["127.0.0.1:55003", "localhost"]),
-                "in": "in " + rng.choice(["front", "back"]), "to": "to %s/sv" % S}
+                "in": "in " + rng.choice(["front", "back"]), "to": "to %s/sv" % S,
+                "per": "per " + rng.choice(['stuff "5"', '"7"', "stuff 5 more 'a b'", '"false"'])}
     if verb == "aux":
         return {"as": "as " + rng.choice(["mine", "klone"]), "via": "via " + rng.choice([".x.y.", "boo.", "main", "mine"])}
     if verb == "rear":
@@ -158,7 +162,7 @@ def first_diff(a, b):
 
 def run(ctx):
     items = []
-    per = ctx.pick(14, 200)
+    per = ctx.pick(48, 300)
     for v in VERBS:
         for i in range(per):
             items.append((v, ctx.rng.randrange(1 << 30)))
